@@ -303,7 +303,7 @@ func (c *Ctx) candidateT(d core.DNF, x string) []string {
 	set := map[string]bool{}
 	for _, cj := range d {
 		for _, l := range cj {
-			t := c.O.Of(l.V)
+			t := l.TermOf(c.O)
 			if (t.IsCallTo(fnAssignable) || t.IsCallTo(fnConvertible)) && len(t.Args) == 2 && exprTypeOf(x)(t.Args[0]) {
 				set[t.Args[1].String()] = true
 			}
